@@ -34,6 +34,7 @@ MUTANTS = {"no_pop_nested_class": ("scope", 4, 3), "class_body_checked": ("scope
            "import_before_future": ("prefix", 3, 2), "method_decorated": ("scope", 3, 3),
            "first_is_top": ("deco", 2, 3), "subscript_checked": ("kinds", 2, 3)}
 LEGACY_DEMO = {"async_no_scope": ("scope", 4, 3, "ScopesFaithful"), "copy_subexprs": ("scope", 2, 3, "EvalOnce")}
+COVERAGE_RUNS = [("scope", 3, 3), ("deco", 2, 3), ("prefix", 3, 2)]
 ACTIONS = ["Grow", "EnterModule", "Leave", "PlaceDecorator", "EnterClass", "EnterFunc", "VisitAnnAssign",
            "VisitImport", "VisitOther", "Finish"]
 
@@ -232,8 +233,14 @@ def render(prog, bad=(), uid=0, seed=0, edits=None, orig=None, poison=()):
         elif k == "ann":
             hint = "42" if i in poison else "int"
             a = tick(i, "ann", hint)
-            tgt = {"name": f"x{i}", "attr": f"_o.x{i}", "attrcall": f"{tick(i, 'base', '_o')}.x{i}",
-                   "subscript": f'{tick(i, "base", "_m")}["x{i}"]'}[n["tgt"]]
+            if n["tgt"] == "name":
+                tgt = f"x{i}"
+            elif n["tgt"] == "attr":
+                tgt = f"_o.x{i}"
+            elif n["tgt"] == "attrcall":
+                tgt = f"{tick(i, 'base', '_o')}.x{i}"
+            else:
+                tgt = f'{tick(i, "base", "_m")}["x{i}"]'
             if n["val"]:
                 out(f"{ind}{tgt}: {a} = {tick(i, 'val', value(i))}", node=i)
                 m.sites.append(i)
@@ -702,30 +709,39 @@ def rows_of(res):
     return [x for x in res.printed if isinstance(x, dict) and "prog" in x]
 
 
+def _jvm(threads):
+    return {"JAVA_TOOL_OPTIONS": f"-XX:ParallelGCThreads={threads} -XX:CICompilerCount=2"}
+
+
 def run_models(rep, tier, d):
     """All TLC runs of one tier, concurrently.  Returns the case-table rows (from the Legacy runs)."""
     from verifkit import tlc
     sl = slices_of(tier)
     isl = intended_of(tier)
     futs = {}
-    with ThreadPoolExecutor(24) as ex:
+    with ThreadPoolExecutor(8) as ex:
         for name, (n, depth) in sl.items():
             ni, di = isl[name]
             futs[("intended", name)] = ex.submit(
-                tlc.run_tlc, SPEC, _cfg(d, f"i_{name}", name, ni, di), workers=4, coverage=True, deadlock=False,
-                heap="4g")
+                tlc.run_tlc, SPEC, _cfg(d, f"i_{name}", name, ni, di), workers=4, deadlock=False, heap="4g", env=_jvm(4),
+                keep_output=False)
             futs[("rows", name)] = ex.submit(
                 tlc.run_tlc, SPEC, _cfg(d, f"r_{name}", name, n, depth, legacy=LEGACY, emit=True, invs=EMIT_INVS),
-                workers=4, deadlock=False, heap="4g")
+                workers=4, deadlock=False, heap="4g", env=_jvm(4), keep_output=False)
+        for cname, cn, cd in COVERAGE_RUNS:
+            futs[("coverage", cname)] = ex.submit(
+                tlc.run_tlc, SPEC, _cfg(d, f"c_{cname}", cname, cn, cd), workers=1, coverage=True, deadlock=False,
+                heap="512m", env=_jvm(1))
         for mu, (name, n, depth) in MUTANTS.items():
             futs[("mutant", mu)] = ex.submit(
-                tlc.run_tlc, SPEC, _cfg(d, f"m_{mu}", name, n, depth, mutant=[mu]), workers=2, deadlock=False,
-                heap="1g")
+                tlc.run_tlc, SPEC, _cfg(d, f"m_{mu}", name, n, depth, mutant=[mu]), workers=1, deadlock=False,
+                heap="512m", env=_jvm(1))
         for lg, (name, n, depth, _inv) in LEGACY_DEMO.items():
             futs[("legacy", lg)] = ex.submit(
-                tlc.run_tlc, SPEC, _cfg(d, f"l_{lg}", name, n, depth, legacy=[lg]), workers=2, deadlock=False,
-                heap="1g")
+                tlc.run_tlc, SPEC, _cfg(d, f"l_{lg}", name, n, depth, legacy=[lg]), workers=1, deadlock=False,
+                heap="512m", env=_jvm(1))
         res = {k: f.result() for k, f in futs.items()}
+    rep.note("TLC wall per run: " + ", ".join(f"{k[0]}:{k[1]}={v.wall_s:.0f}s/{v.distinct}" for k, v in res.items()))
     cov = {}
     rows = []
     for name in sl:
@@ -736,12 +752,17 @@ def run_models(rep, tier, d):
             rep.machinery(f"ClawAst.tla (intended design, slice {name}) violates {a.violated}: the specification is wrong")
         if not b.ok:
             rep.machinery(f"ClawAst.tla (Legacy, slice {name}) violates structural invariant {b.violated}")
-        for act, (dd, tt) in a.coverage.items():
-            cov[act] = cov.get(act, 0) + tt
         rs = rows_of(b)
         if not rs or len({row_key(r) for r in rs}) != len(rs):
             rep.machinery(f"slice {name}: {len(rs)} rows emitted, not one per (program, configuration)")
         rows += rs
+    for cname, _cn, _cd in COVERAGE_RUNS:
+        c = res[("coverage", cname)]
+        rep.tlc(c, f"ClawAst slice {cname}: action coverage")
+        if not c.ok:
+            rep.machinery(f"ClawAst.tla (coverage run {cname}) violates {c.violated}")
+        for act, (dd, tt) in c.coverage.items():
+            cov[act] = cov.get(act, 0) + tt
     zero = [x for x in ACTIONS if not cov.get(x)]
     if zero:
         rep.machinery(f"vacuous TLC runs: actions never taken: {zero}")
@@ -762,7 +783,6 @@ def run_models(rep, tier, d):
 
 
 # =============================================================================== SHAPE over rows
-_ROWS = []
 _SEED = 0
 
 
@@ -774,11 +794,12 @@ def form_seed(ri):
     return _SEED + ri
 
 
-def _shape_range(rng):
-    lo, hi = rng
+def _shape_chunk(chunk):
+    """chunk: (seed, [(row index, row)]) -> [(row index, real edits, problems)]"""
+    global _SEED
+    _SEED, pairs = chunk
     out = []
-    for ri in range(lo, hi):
-        row = _ROWS[ri]
+    for ri, row in pairs:
         m = render(row["prog"], uid=ri, seed=form_seed(ri))
         try:
             sd = shape(m.src, m.node_at_line, real_conf(row["conf"]))
@@ -831,13 +852,12 @@ class Findings:
             rep.violation(key, f"{what}  [{n} case(s) of this class]", case)
 
 
-def do_shape(rep, rows, finds, pool, origin="tlc"):
-    global _ROWS
-    _ROWS = rows
-    n = len(rows)
-    step = max(1, min(500, n // 64 + 1))
-    rngs = [(a, min(n, a + step)) for a in range(0, n, step)]
-    res = pool.map(_shape_range, rngs) if pool else [_shape_range(r) for r in rngs]
+def do_shape(rep, rows, finds, pool, sel=None):
+    idx = list(range(len(rows))) if sel is None else sel
+    n = len(idx)
+    step = max(1, min(400, n // 64 + 1))
+    chunks = [(_SEED, [(ri, rows[ri]) for ri in idx[a:a + step]]) for a in range(0, n, step)]
+    res = pool.map(_shape_chunk, chunks, chunksize=1) if pool else [_shape_chunk(c) for c in chunks]
     agree = 0
     for chunk in res:
         for ri, edits, problems in chunk:
@@ -935,19 +955,36 @@ def _where(prog, meta, line):
     return node_class(prog, n) if n else {"node": "?"}
 
 
-def _cmp_byhand(h, r, refmeta):
-    """First differing field between the hooked execution and a by-hand reference, or None."""
-    if h["exc"] != r["exc"]:
-        return "exception", f"hooked raised {h['exc']} ({h['msg']}), by-hand reference raised {r['exc']} ({r['msg']})"
+def _first_diff(a, b):
+    for k in range(max(len(a), len(b))):
+        x = a[k] if k < len(a) else None
+        y = b[k] if k < len(b) else None
+        if x != y:
+            return x if x is not None else y
+    return None
+
+
+def _cmp_byhand(h, r, refmeta, meta):
+    """First differing field between the hooked execution and a by-hand reference: (field, text, node)."""
     rl = refmeta.refmap.get(r["line"]) if r["line"] is not None else None
+
+    def at(line):
+        return meta.node_at_line.get(line, meta.aux_at_line.get(line)) if line is not None else None
+    if h["exc"] != r["exc"]:
+        return ("exception", f"hooked raised {h['exc']} ({h['msg']}), by-hand reference raised {r['exc']} ({r['msg']})",
+                at(rl if r["exc"] else h["line"]))
     if h["line"] != rl:
-        return "line", f"hooked traceback line {h['line']}, by-hand reference line {rl} (reference file line {r['line']})"
+        return ("line", f"hooked traceback line {h['line']}, by-hand reference line {rl} (reference file line {r['line']})",
+                at(h["line"]))
     if h["out"] != r["out"]:
-        return "stdout", f"evaluation order/count: hooked {h['out']}, by-hand {r['out']}"
+        k = _first_diff(h["out"], r["out"])
+        return "stdout", f"evaluation order/count: hooked {h['out']}, by-hand {r['out']}", int(k.split(".")[0])
     if h["snap"] != r["snap"]:
-        return "snapshot", f"globals: hooked {h['snap']}, by-hand {r['snap']}"
+        return "snapshot", f"globals: hooked {h['snap']}, by-hand {r['snap']}", None
     if h["log"] != r["log"]:
-        return "decorator-order", f"decorator application log: hooked {h['log']}, by-hand {r['log']}"
+        k = _first_diff(h["log"], r["log"])
+        nd = int(k[0].split(".")[0]) if k and k[0] != "h" else None
+        return "decorator-order", f"decorator application log: hooked {h['log']}, by-hand {r['log']}", nd
     return None
 
 
@@ -965,16 +1002,16 @@ def compare_meaning(rep, rows, plan, obs, finds):
         # the reference itself must be a sane program
         if rr["exc"] is not None and not rr["exc"].startswith("Beartype"):
             rep.machinery(f"the by-hand reference of row {ri} raised {rr['exc']}: {rr['msg']}\n{r.src}")
-        d = _cmp_byhand(h, rr, r)
+        d = _cmp_byhand(h, rr, r, m)
         if d is None:
             n_equal += 1
         else:
-            line = rr["line"] and r.refmap.get(rr["line"]) or h["line"]
-            key = {"obs": "meaning", "cmp": "hooked-vs-byhand", "field": d[0], "at": _where(prog, m, line)}
+            key = {"obs": "meaning", "cmp": "hooked-vs-byhand", "field": d[0],
+                   "at": node_class(prog, d[2]) if d[2] else {"node": "-"}}
             finds.add(key, f"MEANING: hooked module differs from the by-hand module written from the rule: {d[1]}{src}"
                            f"--- by-hand reference:\n{r.src}", case)
         if r2 is not None:
-            d2 = _cmp_byhand(h, obs[("reference", iid + ".L")], r2)
+            d2 = _cmp_byhand(h, obs[("reference", iid + ".L")], r2, m)
         else:
             d2 = d
         if d2 is not None:
@@ -1067,11 +1104,16 @@ def do_resilience(rep, rows, sel, finds, batch=250):
         row = rows[ri]
         prog = row["prog"]
         funcs = [i for i, n in enumerate(prog, 1) if n["k"] == "func" and n["ann"]]
+        kids = tree_of(prog)
+
+        def has_func(j):
+            return any(prog[c - 1]["k"] == "func" or has_func(c) for c in kids[j])
+        inner = [i for i in funcs if not has_func(i)]     # outer functions must run to define the nested ones
         for p in funcs:
-            m = render(prog, bad=funcs, uid=ri, seed=form_seed(ri), poison=[p])
+            m = render(prog, bad=inner, uid=ri, seed=form_seed(ri), poison=[p])
             iid = f"{ri}.P{p}"
             items.append({"id": iid, "mod": f"p{ri}_{p}", "conf": row["conf"], "src": m.src, "catch": True})
-            plan.append((ri, p, funcs, m, iid))
+            plan.append((ri, p, inner, m, iid))
     obs = run_children(batches({"hooked": items}, batch))
     n_warn = 0
     for ri, p, funcs, m, iid in plan:
@@ -1094,8 +1136,10 @@ def do_resilience(rep, rows, sel, finds, batch=250):
             finds.add({"obs": "resilience", "what": "warnings", "at": at, "got": len(warns), "want": want},
                       f"RESILIENCE: {len(warns)} BeartypeClawDecorWarning (+{other}) emitted, expected {want}{src}", case)
         log = dict((a, b) for a, b in h["sitelog"])
-        for i in funcs:
+        for i in sorted(set(funcs) | {p}):
             got = log.get(f"f{i}", "never called")
+            if got == "never called":
+                rep.machinery(f"resilience scenario: f{i} was never called{src}")
             if i == p:
                 if got is not None:
                     finds.add({"obs": "resilience", "what": "poisoned definition not left unchecked", "at": at},
@@ -1300,16 +1344,13 @@ def run(rep, tier, seed):
     rng = random.Random(seed)
     rep.assumptions.extend(ASSUMPTIONS)
     finds = Findings()
-    with scratch("c05-") as d:
+    with scratch("c05-") as d, mp.get_context("fork").Pool(16) as pool:    # forked while the parent is small
         t0 = time.time()
         rows = run_models(rep, tier, d)
         rep.note(f"TLC: {len(rows)} (program, configuration) rows in {time.time() - t0:.0f}s")
-        real_conf({"pep": True, "pf": "LBH", "pt": "LAST", "other": True})   # import beartype before forking
-        import beartype.claw._ast.clawastmain  # noqa
         meaning, resil = select_rows(rows, tier, rng)
         t1 = time.time()
-        with mp.get_context("fork").Pool(16) as pool:
-            do_shape(rep, rows, finds, pool)
+        do_shape(rep, rows, finds, pool)
         rep.note(f"SHAPE: {len(rows)} rows in {time.time() - t1:.0f}s")
         t2 = time.time()
         do_meaning(rep, rows, meaning, finds, cap=6 if tier == "quick" else 8)
@@ -1351,12 +1392,10 @@ def replay(rep, path):
         else:
             ri = case["ri"]
             rows = [None] * ri + [case["row"]]
-            global _ROWS
-            _ROWS = rows
             sel = [ri]
             real_conf(case["row"]["conf"])
             # SHAPE
-            only = _shape_range((ri, ri + 1))
+            only = _shape_chunk((_SEED, [(ri, case["row"])]))
             _replay_shape(rep, rows, ri, only, finds)
             if case["row"]["conf"]["other"]:
                 do_meaning_safe(rep, rows, sel, finds)
